@@ -111,6 +111,30 @@ def run(ck):
         else:
             ck.refuted("G-REFUSE", "PduHeader.set_entity_ids", cons, "constructor returns normally" if not env.dead else f"raises {[r['exc'] for r in rs]}")
 
+    # a refused mutation of an existing header leaves it as it was ("refused" instead of being encoded)
+    for Es, Ed in ((1, 2), (4, 2)):
+        it = new_interp(P); env = Env()
+        conf = CF.make_conf(it, env, P, 1, 1)
+        hdr = construct(it, env, f"{HDR}.PduHeader", dict(pdu_type=CF.esym(P, "pdu_type", f"{CF.DEFS}.PduType"),
+                                                           segment_metadata_flag=CF.esym(P, "segment_metadata_flag", f"{CF.DEFS}.SegmentMetadataFlag"),
+                                                           pdu_data_field_len=C(0), pdu_conf=conf))
+        src = construct(it, env, CF.WIDTH_CLASS[Es], dict(val=sym("s2", ty="int")))
+        dst = construct(it, env, CF.WIDTH_CLASS[Ed], dict(val=sym("d2", ty="int")))
+        s0, r0 = len(it.stores), len(it.raises)
+        r = R.run_guarded(ck, "G-REFUSE", "PduHeader.set_entity_ids", "call on an existing header", lambda: call_method(it, env, hdr, "set_entity_ids", [src, dst]))
+        R.check_refusal_atomic(ck, it, f"PduHeader.set_entity_ids [widths {Es}/{Ed} on an existing header]", s0, r0, rule="G-REFUSE")
+    it = new_interp(P); env = Env()
+    conf = CF.make_conf(it, env, P, 1, 1)
+    hdr = construct(it, env, f"{HDR}.PduHeader", dict(pdu_type=CF.esym(P, "pdu_type", f"{CF.DEFS}.PduType"),
+                                                       segment_metadata_flag=CF.esym(P, "segment_metadata_flag", f"{CF.DEFS}.SegmentMetadataFlag"),
+                                                       pdu_data_field_len=C(0), pdu_conf=conf))
+    s0, r0 = len(it.stores), len(it.raises)
+    try:
+        it.setattr(hdr, "pdu_data_field_len", sym("new_len", ty="int"), env, None, None)
+        R.check_refusal_atomic(ck, it, "PduHeader.pdu_data_field_len setter [existing header]", s0, r0, rule="G-REFUSE")
+    except Unsupported as e:
+        ck.unknown("G-REFUSE", "PduHeader.pdu_data_field_len setter", "setter analysed", str(e))
+
     # ------------------------------------------------------------ decoder: symbolic bits
     data = sym("data", ty="bytes")
     it = new_interp(P); env = Env()
